@@ -195,6 +195,16 @@ def list_narop(op, a, *args, t=None):
     t = t or list
     t_seq = (list, tuple)  # TODO: check.
     if isinstance(a, t_seq):
+        if any(isinstance(i, t_seq) for i in args):
+            # Sequence arguments are zipped with a (wrap around) as in
+            # list_binop, scalars are repeated.
+            n = max(len(i) for i in (a, *args) if isinstance(i, t_seq))
+            rows = zip(*(
+                wrap_extend(list(i), n) if isinstance(i, t_seq)
+                else [i] * n for i in (a, *args)))
+            return t(list_narop(
+                op, *row, t=type(row[0]) if isinstance(row[0], t_seq)
+                else None) for row in rows)
         if any(isinstance(i, t_seq) for i in a):
             return t(list_narop(op, i, *args, t=type(i)) for i in a)
         return t(op(i, *args) for i in a)
